@@ -10,7 +10,6 @@ import (
 )
 
 type Locker = sync.Locker
-type Pool = sync.Pool
 type Map = sync.Map
 
 // Mutex mirrors sync.Mutex.
